@@ -294,3 +294,95 @@ def _coap_replay(env, con, obs):
 
 
 CoapDecryptResponse.replay = staticmethod(_coap_replay)
+
+
+# ------------------------------------------------------------------------------------ CoAP request path (post_bytes)
+
+from aiohomekit.exceptions import AccessoryDisconnectedError
+
+
+class _RequestStub(StubObj):
+    """aiocoap: context.request(msg).response is an awaitable that yields a response or raises NetworkError (no route,
+    retransmissions exhausted) - or the 16 s timeout around it fires (asyncio.TimeoutError)"""
+
+    def __init__(self, outcome, resp):
+        self.outcome, self.resp = outcome, resp
+
+    @property
+    def f_response(self):
+        outcome, resp = self.outcome, self.resp
+
+        def run():
+            if outcome == "network-error":
+                from aiocoap.error import NetworkError
+
+                raise_exc(NetworkError)
+            if outcome == "timeout":
+                import asyncio
+
+                raise_exc(asyncio.TimeoutError)
+            return resp
+
+        return Coro(run, "response")
+
+
+def raise_exc(cls):
+    from pyvc.ctx import RaiseEx
+
+    raise RaiseEx(SObj(cls, {"args": ()}))
+
+
+class _CoapCtxReq(CoapCtxStub):
+    def __init__(self, outcome, resp):
+        self.outcome, self.resp = outcome, resp
+
+    def m_request(self, it, msg):
+        it.ctx.trace.append(("coap_request", msg))
+        return _RequestStub(self.outcome, self.resp)
+
+
+class _Code(StubObj):
+    pass
+
+
+def _post_setup(it):
+    import aiohomekit.controller.coap.connection as C
+
+    o = _coap_ctx(it)
+    outcome = it.ctx.choose(["network-error", "timeout", "changed", "not-found", "other-code"])
+    code = {"changed": C.Code.CHANGED, "not-found": C.Code.NOT_FOUND}.get(outcome, C.Code.CONTENT)
+    resp = MessageStub(it.fresh(Bytes, "resp_payload"))
+    resp.f_code = code
+    from pyvc import stubs_asyncio as aio
+
+    o.fields.update(coap_ctx=_CoapCtxReq(outcome, resp), lock=aio.LockStub())
+    it.env.stub(C.Message, lambda it_, **kw: MessageStub(kw.get("payload")))  # (aiocoap message: only the payload matters here)
+    it.ctx.ghost["outcome"] = outcome
+    return {"self": o, "payload": it.fresh(Bytes, "request_pdu")}
+
+
+@contract("aiohomekit.controller.coap.connection:EncryptionContext.post_bytes", prop="C06")
+class CoapPostBytes:
+    """one request = exactly one seal under nonce(send counter), the counter moves on by one and is NOT handed back when
+    the request fails; a request that fails in the transport (NetworkError) or times out ends the session (context shut
+    down and forgotten), so nothing else is ever sealed under that key"""
+
+    setup = _post_setup
+    trusted = TRUSTED
+    requires = [_ctr_ok]
+    raises = {AccessoryDisconnectedError: True, InvalidTag: True, EncryptionError: True}
+    trace_loops_ok = True
+
+    def one_seal_under_the_counter_nonce(self, old, payload, ks, trace):
+        seals = [e for e in trace if e[0] == "seal"]
+        return len(seals) == 1 and seals[0][1] == ks["send"] and seals[0][2] == coap_nonce(old.send_ctr) and seals[0][4] == payload
+
+    ensures = [one_seal_under_the_counter_nonce]
+
+    def failed_request_burns_the_nonce_and_ends_the_session(self, old, outcome, trace, exc):
+        return outcome not in ("network-error", "timeout") or (
+            self.send_ctr == old.send_ctr + 1 and self.coap_ctx is None and any(e[0] == "coap_shutdown" for e in trace)
+            and len([e for e in trace if e[0] == "seal"]) == 1
+        )
+
+    exsures = [failed_request_burns_the_nonce_and_ends_the_session]
